@@ -873,9 +873,23 @@ def c06(chk):
         ops.append("advop 8 1 bi:%s:finish" % valid.hex())      # a well-formed request of the hostile peer is still served
         if rng.random() < 0.5:
             ops.append("advop 8 1 close")
-        cmds += ops + ["join slow 600000", "rpc 2 1 id=after size=64", "rpc 1 2 id=rev size=64", "closed 1", "peers 1", "stat 1"]
+        cmds += ops + ["join slow 600000", "rpc 2 1 id=after size=64", "rpc 1 2 id=rev size=64", "closed 1", "peers 1", "stat 1", "trace"]
         scen.append("simnet " + " ; ".join(cmds))
     outs, parsed = run_scenarios(chk, scen, "fabric:hostile")
+    # trace acceptance: the victim's manager / handler events replayed on Shutdown.v; it must still be in its loop
+    tcases = [mgr_trace_case(res[-1], 1)[0] if res is not None else "mgrtrace" for res in parsed]
+    for sc, res, tc, m in zip(scen, parsed, tcases, run_model(tcases)):
+        if res is None:
+            continue
+        chk.evaluations += 1
+        chk.count("manager-trace-events", len(tc.split()) - 1)
+        if not m.startswith("accepted ph=loop "):
+            chk.disagree(sc, "manager trace: " + tc[:3000], "Shutdown.v: " + m, "simnet/mgrtrace")
+        else:
+            listed = sorted("2" if x == "2" else "adv" for x in res[-3].strip("[]").split(",") if x)
+            ment = sorted("2" if x == "2" else "adv" for x in fields(m)["entries"].strip("[]").split(",") if x)
+            if listed != ment:
+                chk.disagree(sc, "peers 1 = %s" % listed, "Shutdown.v entries: " + m, "simnet/mgrtrace-observables")
     for sc, o, res in zip(scen, outs, parsed):
         if res is None:
             continue
@@ -1070,6 +1084,91 @@ def c15(chk):
         chk.sample(dict(case=scen[0], impl=outs[0][:300], model=mouts[0]))
 
 
+def mgr_trace_case(trace, node):
+    """Translates the H4/H4b trace of one scenario into the event tokens of ShutdownTrace.v for
+    node <node>.  Returns (model case line, facts observed in the trace itself)."""
+    own = "own=n%d" % node
+    lines = [l.split(",") for l in trace.strip("[]").split("|") if l]
+    hid = {}          # stable id of a connection registered at this node -> model handler id
+    toks = []
+    facts = dict(answered_ok=0, answered_err=0, submitted=0, cleanup_removed=0)
+    in_cleanup = False
+    inst = None
+    pending_registered = None
+    for i, f in enumerate(lines):
+        cat = f[1]
+        kv = dict(x.split("=", 1) for x in f[2:] if "=" in x)
+        if cat == "active" and f[3] == "add" and f[4] == own:
+            inst = f[2]
+        if cat == "api" and f[2] == own:
+            k = "c" if kv["kind"] == "connect" else "s"
+            if f[3] == "submit":
+                nxt = lines[i + 1] if i + 1 < len(lines) else []
+                sent = len(nxt) > 3 and nxt[1] == "api" and nxt[2] == own and nxt[3] == "submitted" and nxt[4] == f[4]
+                toks.append("S:%s:%d" % (k, sent))
+                facts["submitted"] += 1
+            elif f[3] == "answered":
+                facts["answered_ok" if kv["ok"] == "true" else "answered_err"] += 1
+        elif cat == "mgr" and f[2] == own:
+            ev = f[3]
+            if ev == "process":
+                toks.append("P:%s" % ("c" if kv["kind"] == "connect" else "s"))
+            elif ev == "incoming":
+                toks.append("I")
+            elif ev == "accept-none":
+                toks.append("N")
+            elif ev == "add-peer":
+                hid[kv["id"]] = len(hid)
+                pending_registered = kv["peer"]
+            elif ev == "conn-result":
+                ok = kv["ok"] == "true"
+                reg = ok and pending_registered is not None
+                peer = kv["peer"].lstrip("n") if kv["peer"] != "-" else "0"
+                if not peer.isdigit():
+                    peer = "99"
+                toks.append("R:%d:%d:%d:%s" % (kv["reply"] == "true", ok, reg, peer))
+                pending_registered = None
+            elif ev == "join":
+                toks.append("J:%d" % (kv["cancelled"] == "true"))
+            elif ev == "handles-dropped":
+                toks.append("H")
+            elif ev == "abort-pending":
+                toks.append("AP")
+            elif ev == "all-joined":
+                toks.append("AJ")
+                toks.append("C:%s" % kv["leftover"])
+                in_cleanup = True
+            elif ev == "cleanup-done":
+                in_cleanup = False
+            elif ev == "finish":
+                toks.append("F")
+        elif cat == "handler" and kv.get("id") in hid:
+            h = hid[kv["id"]]
+            toks.append({"req-start": "q+:%d", "req-end": "q-:%d", "drained": "A:%d"}[f[3]] % h)
+        elif cat == "active" and inst is not None and f[2] == inst:
+            if f[3] == "remove_stable" and kv.get("id") in hid:
+                toks.append("X:%d" % hid[kv["id"]])
+            elif f[3] == "remove" and kv.get("present") == "true":
+                if in_cleanup:
+                    facts["cleanup_removed"] += 1
+                else:
+                    peer = kv["peer"].lstrip("n")
+                    toks.append("D:%s" % (peer if peer.isdigit() else "99"))
+    # stream arrivals are not recorded (they happen inside quinn): each accepted stream arrived at some
+    # point before it was accepted and before the endpoint was closed; they are placed as late as that allows
+    close_at = next((i for i, t in enumerate(toks) if t in ("P:s", "H")), len(toks))
+    late = [t for t in toks[close_at:] if t.startswith("q+:")]
+    out = []
+    for i, t in enumerate(toks):
+        if i == close_at:
+            out += ["a:" + x[3:] for x in late]
+        if t.startswith("q+:") and i < close_at:
+            out.append("a:" + t[3:])
+        out.append(t)
+    facts["late_requests"] = len(late)
+    return "mgrtrace " + " ".join(out), facts
+
+
 def c08(chk):
     """Shutdown (explicit or by dropping the last handle) with work in flight."""
     quick = chk.tier == "quick"
@@ -1117,9 +1216,37 @@ def c08(chk):
         cmds += ["sleep 500", "closed 0", "stat 0", "events 0", "peers 1", "peers 2", "sleep 18000", "peers 1", "peers 2", "events 1"]
         if mode != "drop":
             cmds += ["connect 0 1", "rpc 0 1 id=late size=1", "shutdown 0", "disconnect 0 1", "peers 0"]
+        cmds.append("trace")
         scen.append("simnet " + " ; ".join(cmds))
         metas.append((mode, idle_wait, jobs))
     outs, parsed = run_scenarios(chk, scen, "fabric:shutdown")
+    # trace acceptance: node 0's manager / handler / API events replayed on Shutdown.v (ShutdownTrace.trun)
+    tcases, tfacts = [], []
+    for res in parsed:
+        if res is None:
+            tcases.append("mgrtrace")
+            tfacts.append(None)
+        else:
+            c, f = mgr_trace_case(res[-1], 0)
+            tcases.append(c)
+            tfacts.append(f)
+    tm = run_model(tcases)
+    for sc, res, tc, f, m in zip(scen, parsed, tcases, tfacts, tm):
+        if res is None:
+            continue
+        chk.evaluations += 1
+        chk.count("manager-trace-events", len(tc.split()) - 1)
+        chk.count("requests-accepted-after-endpoint-close", f["late_requests"])
+        mf = fields(m)
+        ev0 = [c for c, x in zip([c.strip() for c in sc[len("simnet "):].split(" ; ")][1:], res) if c == "events 0"]
+        lost_impl = len([e for e in res[[c.strip() for c in sc[len("simnet "):].split(" ; ")][1:].index("events 0")].strip("[]").split(",") if e.startswith("-")])
+        want = "accepted ph=done entries=[] hands=0 inbound=0"
+        if not m.startswith(want):
+            chk.disagree(sc, "manager trace: " + tc[:3000], "Shutdown.v: " + m, "simnet/mgrtrace")
+            continue
+        if mf["unanswered"] != "0" or int(mf["ansok"]) != f["answered_ok"] or int(mf["ansfail"]) < f["answered_err"] or int(mf["lost"]) != lost_impl or f["cleanup_removed"] != 0:
+            chk.disagree(sc, "manager trace: answered ok=%d err=%d, LostPeer events=%d, removed by cleanup=%d" % (f["answered_ok"], f["answered_err"], lost_impl, f["cleanup_removed"]),
+                         "Shutdown.v: " + m, "simnet/mgrtrace-observables")
     for sc, o, res, (mode, idle_wait, jobs) in zip(scen, outs, parsed, metas):
         if res is None:
             continue
